@@ -1,19 +1,22 @@
 (* C16 — --pep_563 confines only annotation-only imports and keeps the module importable.
    Statements about the model (Model/Confine.v) of cli.get_newly_imported_items,
    MoveImportsToTypeCheckingBlockVisitor.transform_module_impl and RemoveImportsTransformer, with the
-   proposed patches C16-1..3.  `applied` is the output of libcst's apply step (modelled, not verified):
+   patches C16-1..4 (committed; C16-4: for the source only module-level imports count as existing, the remover does
+   not descend into compound statements) and the proposed patch C16-5 (an import that an existing module-level
+   `if TYPE_CHECKING:` block already holds gets no second block).  `applied` is the output of libcst's apply step (modelled, not verified):
    its assumed relation to the source is the hypothesis `embedsb src applied = true`, re-checked per case. *)
 From Coq Require Import List Bool String.
-From MT Require Import Confine ConfineSpec.
+From MT Require Import Confine ConfineSpec ConfineIdem.
 Import ListNotations.
 Open Scope list_scope.
 
 (* For ALL stubs, sources and applied modules:
    1. the result begins (after a docstring) with `from __future__ import annotations` whenever the apply step put it there;
-   2. every import item the stub has and the source's symbol mapping lacks, other than typing / mypy_extensions
-      (needed at run time by generated TypedDict classes), is under `if TYPE_CHECKING:` and at no run-time level;
-   3. outside finding class kf_apply_extra, no import item is at run-time level that the source did not have there,
-      except typing / mypy_extensions / __future__;
+   2. every import item the stub has and the symbol mapping of the source's module-level imports lacks, other than
+      typing / mypy_extensions (needed at run time by generated TypedDict classes), is under `if TYPE_CHECKING:` and in
+      no module-level import statement;
+   3. outside finding class kf_apply_extra (and given that libcst adds imports at module level only), no import item is
+      at run-time level that the source did not have there, except typing / mypy_extensions / __future__;
    4. outside finding class kf_shadow, every statement of the source, with every import name, is still there in order. *)
 Theorem confine_spec :
   forall stub src applied out,
@@ -21,9 +24,9 @@ Theorem confine_spec :
     embedsb src applied = true ->
     confine stub src applied = Some out ->
        (future_head applied = true -> future_head out = true)
-    /\ (forall it, In it (gather stub) -> ~ In it (gather src) -> runtime_module (i_mod it) = false ->
-          In it (tc_items out) /\ ~ In it (run_items out))
-    /\ (kf_apply_extra stub src applied = false ->
+    /\ (forall it, In it (gather stub) -> ~ In it (gather_top src) -> runtime_module (i_mod it) = false ->
+          In it (tc_items out) /\ ~ In it (top_items out))
+    /\ (kf_apply_extra stub src applied = false -> nested_ok src applied = true ->
           forall it, In it (run_items out) -> allowed_runtime src it = true)
     /\ (kf_shadow stub src = false -> embedsb src out = true).
 Proof. exact ConfineSpec.confine_spec. Qed.
@@ -41,9 +44,10 @@ Theorem runtime_names_preserved :
 Proof. exact ConfineSpec.runtime_names_preserved. Qed.
 Print Assumptions runtime_names_preserved.
 
-(* the class kf_shadow is empty whenever every import item of the source is in its symbol mapping *)
+(* the class kf_shadow is empty whenever every module-level import item of the source is in the symbol mapping of the
+   source's module-level imports *)
 Theorem kf_shadow_empty_when_no_shadowing :
-  forall stub src, (forall it, In it (all_items src) -> In it (gather src)) -> kf_shadow stub src = false.
+  forall stub src, (forall it, In it (top_items src) -> In it (gather_top src)) -> kf_shadow stub src = false.
 Proof. exact ConfineSpec.kf_shadow_free_when_gathered. Qed.
 Print Assumptions kf_shadow_empty_when_no_shadowing.
 
@@ -88,6 +92,48 @@ Example ex_confine_spec_nonvacuous :
            SImp (IFrom "typing" [("TYPE_CHECKING"%string, None)]);
            SIfTC [IFrom "shapes" [("Circle"%string, None)]];
            SComp "f" []].
+Proof. vm_compute. repeat split; reflexivity. Qed.
+
+(* the source binds Circle to other.Circle at run time and imports shapes.Circle only under TYPE_CHECKING; the stub needs
+   shapes.Circle.  libcst adds `from shapes import Circle` at module level (which would rebind the name); it is moved. *)
+Example ex_tc_only_source_import :
+  let src := [SImp (IFrom "other" [("Circle"%string, None)]); SImp (IImport [("typing"%string, None)]);
+              SIfTC [IFrom "shapes" [("Circle"%string, None)]]; SComp "f" []] in
+  let applied := [SImp (IFrom "__future__" [("annotations"%string, None)]); SImp (IFrom "other" [("Circle"%string, None)]);
+                  SImp (IImport [("typing"%string, None)]); SImp (IFrom "shapes" [("Circle"%string, None)]);
+                  SIfTC [IFrom "shapes" [("Circle"%string, None)]]; SComp "f" []] in
+  wf_module src = true /\ embedsb src applied = true
+  /\ kf_shadow ex_stub src = false /\ kf_apply_extra ex_stub src applied = false /\ nested_ok src applied = true
+  /\ confine ex_stub src applied =
+     Some [SImp (IFrom "__future__" [("annotations"%string, None)]); SImp (IFrom "other" [("Circle"%string, None)]);
+           SImp (IImport [("typing"%string, None)]); SImp (IFrom "typing" [("TYPE_CHECKING"%string, None)]);
+           SIfTC [IFrom "shapes" [("Circle"%string, None)]]; SComp "f" []].
+Proof. vm_compute. repeat split; reflexivity. Qed.
+
+(* re-application is a no-op on the import structure: when every import to be moved is already held by an existing
+   module-level `if TYPE_CHECKING:` block (put there by the source or by an earlier application), no block is inserted -
+   the module-level copies libcst added are removed and the blocks are what they were *)
+Theorem no_second_block :
+  forall stub src applied out,
+    confine stub src applied = Some out ->
+    (forall it, In it (moved_items stub src) -> In it (already_confined applied)) ->
+    out = remove (moved_items stub src) (add_tc applied) /\ tc_block_imps out = tc_block_imps applied.
+Proof. exact ConfineIdem.no_second_block. Qed.
+Print Assumptions no_second_block.
+
+(* second application (overwrite on: libcst re-adds the module-level import) of the stub to the result of the first *)
+Example ex_second_application_noop :
+  let first := [SImp (IFrom "__future__" [("annotations"%string, None)]);
+                SImp (IFrom "typing" [("TYPE_CHECKING"%string, None)]);
+                SIfTC [IFrom "shapes" [("Circle"%string, None)]]; SComp "f" []] in
+  let applied := [SImp (IFrom "__future__" [("annotations"%string, None)]);
+                  SImp (IFrom "typing" [("TYPE_CHECKING"%string, None)]);
+                  SImp (IFrom "shapes" [("Circle"%string, None)]);
+                  SIfTC [IFrom "shapes" [("Circle"%string, None)]]; SComp "f" []] in
+  moved_items ex_stub first = [Item "shapes" (Some "Circle"%string) None]
+  /\ already_confined applied = [Item "shapes" (Some "Circle"%string) None]
+  /\ confine ex_stub first applied = Some first
+  /\ confine ex_stub first first = Some first.
 Proof. vm_compute. repeat split; reflexivity. Qed.
 
 (* witness (c): a generated TypedDict class; its base import stays at run-time level *)
